@@ -96,7 +96,14 @@ class PropBase:
         return None
 
     def comparable(self, sess, i, step) -> bool:
-        """May this step be compared between replicas in different environments?"""
+        """May this step be compared between replicas in different environments?  Not if its
+        input is documented as clock- or zone-relative (time-only text, aware times that a lenient
+        member reads through "today", naive temporals)."""
+        from .. import hist
+
+        for k in ("x", "v", "s"):
+            if k in step and hist.env_relative_value(step[k]):
+                return False
         return True
 
     def run(self, sess):
